@@ -486,6 +486,13 @@ class Engine:
             return payload(v, step[1])[step[2]]
         if k == 's':
             return v.slots[step[1]]
+        if k == 'si':                               # element at a symbolic index (last_mut / get_mut / first_mut)
+            r = None
+            for i in range(v.n - 1, -1, -1):
+                if v.slots[i] is None:
+                    continue
+                r = v.slots[i] if r is None else ite(step[1] == i, v.slots[i], r)
+            return r
         raise Unsupported('projection %r' % (step,))
 
     def write_ref(self, st, r, f):
@@ -510,6 +517,12 @@ class Engine:
             if step[0] == 's':
                 sl = list(v.slots)
                 sl[step[1]] = upd(sl[step[1]], path[1:])
+                return Vc(v.ty, v.len, sl, v.n)
+            if step[0] == 'si':
+                sl = list(v.slots)
+                for i in range(v.n):
+                    if sl[i] is not None:
+                        sl[i] = ite(step[1] == i, upd(sl[i], path[1:]), sl[i])
                 return Vc(v.ty, v.len, sl, v.n)
             raise Unsupported('write projection %r' % (step,))
         st.env[r.root] = upd(st.env.get(r.root), r.path)
